@@ -1214,3 +1214,140 @@ func verifLemmaZeroVector(bits BitVec) {}
 //@   ensures old(evm.readOnly) && old(sval(scope.Stack, 2)) != 0 ==> err == ErrWriteProtection && !wrote
 //@   atcall Call#1 assume freshBudget(arg5)
 //@   atcall Set#1 assume arg3 == 0 || arg2 + arg3 <= len(scope.Memory.store)
+
+// ================================================================ C27: arithmetic and comparison instructions
+
+// Each instruction consumes and produces exactly the stack items the specification says, writes
+// only the slot that becomes the new top, and computes the specified function of its operands
+// (operand order included; the 256-bit arithmetic itself is the uint256 library's, see models).
+// s0 is the top of the stack before the instruction, s1 the item below it.
+//@ pure func sgn256(v int) int { return ite(v >= 57896044618658097711785492504343953926634992332820282019728792003956564819968, v - 115792089237316195423570985008687907853269984665640564039457584007913129639936, v) }
+
+//@ func opAdd(pc *uint64, evm *EVM, scope *ScopeContext) (ret []byte, err error)
+//@   serves C27
+//@   requires scope.Stack != nil && stackInv(scope.Stack) && scope.Stack.size >= 2
+//@   modifies scope.Stack.size, scope.Stack.inner.top, scope.Stack.inner.data[scope.Stack.bottom + scope.Stack.size - 2 : scope.Stack.bottom + scope.Stack.size - 1]
+//@   ensures err == nil && stackInv(scope.Stack) && scope.Stack.size == old(scope.Stack.size) - 1
+//@   ensures sval(scope.Stack, 0) == (old(sval(scope.Stack, 0)) + old(sval(scope.Stack, 1))) % 115792089237316195423570985008687907853269984665640564039457584007913129639936
+
+//@ func opSub(pc *uint64, evm *EVM, scope *ScopeContext) (ret []byte, err error)
+//@   serves C27
+//@   requires scope.Stack != nil && stackInv(scope.Stack) && scope.Stack.size >= 2
+//@   modifies scope.Stack.size, scope.Stack.inner.top, scope.Stack.inner.data[scope.Stack.bottom + scope.Stack.size - 2 : scope.Stack.bottom + scope.Stack.size - 1]
+//@   ensures err == nil && stackInv(scope.Stack) && scope.Stack.size == old(scope.Stack.size) - 1
+//@   ensures sval(scope.Stack, 0) == (old(sval(scope.Stack, 0)) - old(sval(scope.Stack, 1))) % 115792089237316195423570985008687907853269984665640564039457584007913129639936
+
+//@ func opMul(pc *uint64, evm *EVM, scope *ScopeContext) (ret []byte, err error)
+//@   serves C27
+//@   requires scope.Stack != nil && stackInv(scope.Stack) && scope.Stack.size >= 2
+//@   modifies scope.Stack.size, scope.Stack.inner.top, scope.Stack.inner.data[scope.Stack.bottom + scope.Stack.size - 2 : scope.Stack.bottom + scope.Stack.size - 1]
+//@   ensures err == nil && stackInv(scope.Stack) && scope.Stack.size == old(scope.Stack.size) - 1
+//@   ensures sval(scope.Stack, 0) == (old(sval(scope.Stack, 0)) * old(sval(scope.Stack, 1))) % 115792089237316195423570985008687907853269984665640564039457584007913129639936
+
+//@ func opDiv(pc *uint64, evm *EVM, scope *ScopeContext) (ret []byte, err error)
+//@   serves C27
+//@   requires scope.Stack != nil && stackInv(scope.Stack) && scope.Stack.size >= 2
+//@   modifies scope.Stack.size, scope.Stack.inner.top, scope.Stack.inner.data[scope.Stack.bottom + scope.Stack.size - 2 : scope.Stack.bottom + scope.Stack.size - 1]
+//@   ensures err == nil && stackInv(scope.Stack) && scope.Stack.size == old(scope.Stack.size) - 1
+//@   ensures sval(scope.Stack, 0) == ite(old(sval(scope.Stack, 1)) == 0, 0, old(sval(scope.Stack, 0)) / old(sval(scope.Stack, 1)))
+
+//@ func opMod(pc *uint64, evm *EVM, scope *ScopeContext) (ret []byte, err error)
+//@   serves C27
+//@   requires scope.Stack != nil && stackInv(scope.Stack) && scope.Stack.size >= 2
+//@   modifies scope.Stack.size, scope.Stack.inner.top, scope.Stack.inner.data[scope.Stack.bottom + scope.Stack.size - 2 : scope.Stack.bottom + scope.Stack.size - 1]
+//@   ensures err == nil && stackInv(scope.Stack) && scope.Stack.size == old(scope.Stack.size) - 1
+//@   ensures sval(scope.Stack, 0) == ite(old(sval(scope.Stack, 1)) == 0, 0, old(sval(scope.Stack, 0)) % old(sval(scope.Stack, 1)))
+
+//@ func opLt(pc *uint64, evm *EVM, scope *ScopeContext) (ret []byte, err error)
+//@   serves C27
+//@   requires scope.Stack != nil && stackInv(scope.Stack) && scope.Stack.size >= 2
+//@   modifies scope.Stack.size, scope.Stack.inner.top, scope.Stack.inner.data[scope.Stack.bottom + scope.Stack.size - 2 : scope.Stack.bottom + scope.Stack.size - 1]
+//@   ensures err == nil && stackInv(scope.Stack) && scope.Stack.size == old(scope.Stack.size) - 1
+//@   ensures sval(scope.Stack, 0) == ite(old(sval(scope.Stack, 0)) < old(sval(scope.Stack, 1)), 1, 0)
+
+//@ func opGt(pc *uint64, evm *EVM, scope *ScopeContext) (ret []byte, err error)
+//@   serves C27
+//@   requires scope.Stack != nil && stackInv(scope.Stack) && scope.Stack.size >= 2
+//@   modifies scope.Stack.size, scope.Stack.inner.top, scope.Stack.inner.data[scope.Stack.bottom + scope.Stack.size - 2 : scope.Stack.bottom + scope.Stack.size - 1]
+//@   ensures err == nil && stackInv(scope.Stack) && scope.Stack.size == old(scope.Stack.size) - 1
+//@   ensures sval(scope.Stack, 0) == ite(old(sval(scope.Stack, 0)) > old(sval(scope.Stack, 1)), 1, 0)
+
+//@ func opSlt(pc *uint64, evm *EVM, scope *ScopeContext) (ret []byte, err error)
+//@   serves C27
+//@   requires scope.Stack != nil && stackInv(scope.Stack) && scope.Stack.size >= 2
+//@   modifies scope.Stack.size, scope.Stack.inner.top, scope.Stack.inner.data[scope.Stack.bottom + scope.Stack.size - 2 : scope.Stack.bottom + scope.Stack.size - 1]
+//@   ensures err == nil && stackInv(scope.Stack) && scope.Stack.size == old(scope.Stack.size) - 1
+//@   ensures sval(scope.Stack, 0) == ite(sgn256(old(sval(scope.Stack, 0))) < sgn256(old(sval(scope.Stack, 1))), 1, 0)
+
+//@ func opSgt(pc *uint64, evm *EVM, scope *ScopeContext) (ret []byte, err error)
+//@   serves C27
+//@   requires scope.Stack != nil && stackInv(scope.Stack) && scope.Stack.size >= 2
+//@   modifies scope.Stack.size, scope.Stack.inner.top, scope.Stack.inner.data[scope.Stack.bottom + scope.Stack.size - 2 : scope.Stack.bottom + scope.Stack.size - 1]
+//@   ensures err == nil && stackInv(scope.Stack) && scope.Stack.size == old(scope.Stack.size) - 1
+//@   ensures sval(scope.Stack, 0) == ite(sgn256(old(sval(scope.Stack, 0))) > sgn256(old(sval(scope.Stack, 1))), 1, 0)
+
+//@ func opEq(pc *uint64, evm *EVM, scope *ScopeContext) (ret []byte, err error)
+//@   serves C27
+//@   requires scope.Stack != nil && stackInv(scope.Stack) && scope.Stack.size >= 2
+//@   modifies scope.Stack.size, scope.Stack.inner.top, scope.Stack.inner.data[scope.Stack.bottom + scope.Stack.size - 2 : scope.Stack.bottom + scope.Stack.size - 1]
+//@   ensures err == nil && stackInv(scope.Stack) && scope.Stack.size == old(scope.Stack.size) - 1
+//@   ensures sval(scope.Stack, 0) == ite(old(sval(scope.Stack, 0)) == old(sval(scope.Stack, 1)), 1, 0)
+
+//@ func opIszero(pc *uint64, evm *EVM, scope *ScopeContext) (ret []byte, err error)
+//@   serves C27
+//@   requires scope.Stack != nil && stackInv(scope.Stack) && scope.Stack.size >= 1
+//@   modifies scope.Stack.inner.data[scope.Stack.bottom + scope.Stack.size - 1 : scope.Stack.bottom + scope.Stack.size]
+//@   ensures err == nil && stackInv(scope.Stack) && scope.Stack.size == old(scope.Stack.size)
+//@   ensures sval(scope.Stack, 0) == ite(old(sval(scope.Stack, 0)) == 0, 1, 0)
+
+//@ func opPop(pc *uint64, evm *EVM, scope *ScopeContext) (ret []byte, err error)
+//@   serves C27
+//@   requires scope.Stack != nil && stackInv(scope.Stack) && scope.Stack.size >= 1
+//@   modifies scope.Stack.size, scope.Stack.inner.top
+//@   ensures err == nil && stackInv(scope.Stack) && scope.Stack.size == old(scope.Stack.size) - 1
+
+// ================================================================ C30 / C27: jumps and pushes
+
+// JUMP / JUMPI: control is transferred only to a position that holds JUMPDEST and is not push
+// data (validJumpdest, C30); otherwise the instruction fails with ErrInvalidJump and the program
+// counter is left alone. The new pc is dest-1 (the interpreter adds one).
+//@ func opJump(pc *uint64, evm *EVM, scope *ScopeContext) (ret []byte, err error)
+//@   serves C30 C27
+//@   requires scope.Stack != nil && stackInv(scope.Stack) && scope.Stack.size >= 1 && scope.Contract != nil
+//@   requires analysisOK(scope.Contract) && len(scope.Contract.Code) <= 17592186044416 && ((scope.Contract.analysis == nil) == (len(scope.Contract.analysis) == 0))
+//@   requires len(scope.Contract.analysis) > 0 || iszero(scope.Contract.CodeHash)
+//@   modifies *pc, scope.Stack.size, scope.Stack.inner.top, scope.Contract.analysis
+//@   mutates
+//@   ensures err == nil ==> old(sval(scope.Stack, 0)) < len(scope.Contract.Code) && scope.Contract.Code[old(sval(scope.Stack, 0))] == 91 && !isData(scope.Contract.Code, old(sval(scope.Stack, 0))) && (*pc + 1) % 18446744073709551616 == old(sval(scope.Stack, 0))
+//@   ensures err != nil ==> *pc == old(*pc)
+//@   ensures err == ErrInvalidJump ==> !(old(sval(scope.Stack, 0)) < len(scope.Contract.Code) && scope.Contract.Code[old(sval(scope.Stack, 0))] == 91 && !isData(scope.Contract.Code, old(sval(scope.Stack, 0))))
+
+//@ func opJumpi(pc *uint64, evm *EVM, scope *ScopeContext) (ret []byte, err error)
+//@   serves C30 C27
+//@   requires scope.Stack != nil && stackInv(scope.Stack) && scope.Stack.size >= 2 && scope.Contract != nil
+//@   requires analysisOK(scope.Contract) && len(scope.Contract.Code) <= 17592186044416 && ((scope.Contract.analysis == nil) == (len(scope.Contract.analysis) == 0))
+//@   requires len(scope.Contract.analysis) > 0 || iszero(scope.Contract.CodeHash)
+//@   modifies *pc, scope.Stack.size, scope.Stack.inner.top, scope.Contract.analysis
+//@   mutates
+//@   ensures err == nil && old(sval(scope.Stack, 1)) != 0 ==> old(sval(scope.Stack, 0)) < len(scope.Contract.Code) && scope.Contract.Code[old(sval(scope.Stack, 0))] == 91 && !isData(scope.Contract.Code, old(sval(scope.Stack, 0))) && (*pc + 1) % 18446744073709551616 == old(sval(scope.Stack, 0))
+//@   ensures err != nil || old(sval(scope.Stack, 1)) == 0 ==> *pc == old(*pc)
+
+// PUSH1: pushes the byte after the opcode (zero past the end of the code) and skips it.
+//@ func opPush1(pc *uint64, evm *EVM, scope *ScopeContext) (ret []byte, err error)
+//@   serves C27
+//@   requires scope.Stack != nil && stackInv(scope.Stack) && scope.Stack.size < 1024 && scope.Contract != nil && *pc < 18446744073709551615
+//@   modifies *pc, scope.Stack.size, scope.Stack.inner.top, scope.Stack.inner.data[scope.Stack.bottom + scope.Stack.size : scope.Stack.bottom + scope.Stack.size + 1]
+//@   ensures err == nil && stackInv(scope.Stack) && scope.Stack.size == old(scope.Stack.size) + 1 && *pc == old(*pc) + 1
+//@   ensures sval(scope.Stack, 0) == ite(old(*pc) + 1 < len(scope.Contract.Code), scope.Contract.Code[old(*pc) + 1], 0)
+
+//@ func opPc(pc *uint64, evm *EVM, scope *ScopeContext) (ret []byte, err error)
+//@   serves C27
+//@   requires scope.Stack != nil && stackInv(scope.Stack) && scope.Stack.size < 1024
+//@   modifies scope.Stack.size, scope.Stack.inner.top, scope.Stack.inner.data[scope.Stack.bottom + scope.Stack.size : scope.Stack.bottom + scope.Stack.size + 1]
+//@   ensures err == nil && stackInv(scope.Stack) && scope.Stack.size == old(scope.Stack.size) + 1 && sval(scope.Stack, 0) == *pc
+
+//@ func opMsize(pc *uint64, evm *EVM, scope *ScopeContext) (ret []byte, err error)
+//@   serves C27
+//@   requires scope.Stack != nil && stackInv(scope.Stack) && scope.Stack.size < 1024 && scope.Memory != nil
+//@   modifies scope.Stack.size, scope.Stack.inner.top, scope.Stack.inner.data[scope.Stack.bottom + scope.Stack.size : scope.Stack.bottom + scope.Stack.size + 1]
+//@   ensures err == nil && stackInv(scope.Stack) && scope.Stack.size == old(scope.Stack.size) + 1 && sval(scope.Stack, 0) == len(scope.Memory.store)
